@@ -27,6 +27,7 @@ EXTENDS Naturals, Sequences, FiniteSets
 CONSTANTS FlatAlphabet, FlatLen,      \* every string over FlatAlphabet up to FlatLen (both roles' scheme machinery)
           TailAlphabet, TailLen,      \* every tail over TailAlphabet up to TailLen, behind each authority-introducing prefix
           PrefixSchemes, PrefixSlashes, \* authority-introducing prefixes <<scheme, ":", a, b>>, a and b \in PrefixSlashes
+          LeadLen,                    \* every run over LeadSet up to LeadLen between "/" (or "scheme:") and a host name
           BaseScheme                  \* scheme of the service URL the browser resolves against: "H" or "Hs"
 
 AllTokens == {":", "/", "B", "@", "?", "#", ".", "[", "]", "%", "T", "S", "C", "H", "Hs", "l", "i", "a", "e", "x", "P", "8"}
@@ -152,8 +153,16 @@ RtNeigh(d)   == Rt(UNION {Neighbours(s) : s \in RtSeeds})
 OrigFlat(d)  == Orig({<<"/">> \o t : t \in StrUpTo(FlatAlphabet, FlatLen)})
 OrigTails(d) == Orig({<<"/">> \o t : t \in StrUpTo(TailAlphabet, TailLen)})
 OrigNeigh(d) == Orig({s \in UNION {Neighbours(x) : x \in OrigSeeds} : s # <<>> /\ s[1] = "/"})
-Cases(d) == UNION {RtFlat(d), RtTails(d), RtNeigh(d), OrigFlat(d), OrigTails(d), OrigNeigh(d)}
-CaseFamilies == <<"RtFlat", "RtTails", "RtNeigh", "OrigFlat", "OrigTails", "OrigNeigh">>
+(* the "leading run" families: what sits between the first "/" (or "scheme:") and a host name decides whether a browser
+   reads an authority -- slashes, backslashes and the characters a browser ignores there (tab/newline anywhere, C0/space
+   at the very start), in every order.  Small, so they are part of every tier (a validator that forgets interior
+   tab/newline removal -- "/" TAB "\" host -- is only visible here or with "T" in the tail alphabet).               *)
+LeadSet == {"/", "B", "T", "S", "C"}
+Leads == StrUpTo(LeadSet, LeadLen)
+OrigLead(d) == Orig({<<"/">> \o w \o <<h>> \o t : w \in Leads, h \in {"e", "l"}, t \in {<<>>, <<"/", "x">>}})
+RtLead(d)   == Rt({<<sc, ":">> \o w \o <<h>> : sc \in {"H", "Hs"}, w \in Leads, h \in {"e", "l", "a"}})
+Cases(d) == UNION {RtFlat(d), RtTails(d), RtNeigh(d), RtLead(d), OrigFlat(d), OrigTails(d), OrigNeigh(d), OrigLead(d)}
+CaseFamilies == <<"RtFlat", "RtTails", "RtNeigh", "RtLead", "OrigFlat", "OrigTails", "OrigNeigh", "OrigLead">>
 
 Al(c) == IF c.role = "rt" THEN c.cfg ELSE "noport"
 Expected(c) == [kind |-> Ref(c.s, Al(c))]
